@@ -763,6 +763,7 @@ pub fn reads() -> Vec<Read> {
         Read { what: "control::Source::rules_requires_root no", text: "Source: foo\nRules-Requires-Root:   no\n", read: |d| format!("{:?}", v_csrc(d).rules_requires_root()), expect: "Some(false)" },
         Read { what: "control::Source::rules_requires_root keyword list (no panic)", text: "Source: foo\nRules-Requires-Root: binary-targets\n", read: |d| { let _ = v_csrc(d).rules_requires_root(); "no panic".to_string() }, expect: "no panic" },
         Read { what: "control::Source::vcs Git", text: "Source: foo\nVcs-Browser: https://salsa.debian.org/x/y\nVcs-Git: https://salsa.debian.org/x/y.git -b debian/sid [sub]\n", read: |d| format!("{:?}", v_csrc(d).vcs().map(|v| v.to_field().1)), expect: "Some(\"https://salsa.debian.org/x/y.git -b debian/sid [sub]\")" },
+        Read { what: "control::Source::vcs past a Vcs field of a kind that is not understood", text: "Source: foo\nVcs-Mtn: mtn.example.org foo.bar\nVcs-Git: https://salsa.debian.org/x/y.git\n", read: |d| format!("{:?}", v_csrc(d).vcs().map(|v| v.to_field().1)), expect: "Some(\"https://salsa.debian.org/x/y.git\")" },
         Read { what: "control::Source::vcs Svn", text: "Source: foo\nVcs-Svn: svn://e.org/x\n", read: |d| format!("{:?}", v_csrc(d).vcs().map(|v| (v.to_field().0.to_string(), v.to_field().1))), expect: "Some((\"Svn\", \"svn://e.org/x\"))" },
         Read { what: "control::Source::priority", text: "Source: foo\nPriority: optional\n", read: |d| format!("{:?}", v_csrc(d).priority()), expect: "Some(Optional)" },
         Read { what: "control::Source::build_depends entries", text: "Source: foo\nBuild-Depends: a (>= 1),\n b | c,\n d [amd64]\n", read: |d| format!("{:?}", v_csrc(d).build_depends().map(|r| r.entries().map(|e| e.to_string().trim().to_string()).collect::<Vec<_>>())), expect: "Some([\"a (>= 1)\", \"b | c\", \"d [amd64]\"])" },
